@@ -34,7 +34,7 @@ def _build(case):
         if name != b"none" and name not in transport.SSHTransportBase.supportedCiphers:
             raise RuntimeError("cipher not offered by the transport: %r" % name)
 
-    tr = {"plain": [], "pads": [], "z": [], "dec": [], "ver": [], "dz": []}
+    tr = {"plain": [], "pads": [], "z": [], "dec": [], "mac": [], "dz": []}
 
     class RecCiphers(transport.SSHCiphers):
         def encrypt(self, blocks):
@@ -46,11 +46,10 @@ def _build(case):
             tr["dec"].append(bytes(out))
             return out
 
-        def verify(self, seqid, data, m):
-            ok = transport.SSHCiphers.verify(self, seqid, data, m)
-            if ok:
-                tr["ver"].append((seqid, bytes(data), bytes(m)))
-            return ok
+        def makeMAC(self, seqid, data):
+            m = transport.SSHCiphers.makeMAC(self, seqid, data)
+            tr["mac"].append((seqid, bytes(data), bytes(m)))      # the genuine (seq, packet, MAC) triples
+            return m
 
     def ciphers():
         c = RecCiphers(cip, cip, mac, mac)
@@ -154,7 +153,7 @@ def _build(case):
         rcv.dataReceived(c)
         rcv._v()
     bs = snd.currentEncryptions.encBlockSize
-    sends = [f"S{pl.hex()}:{len(pad)}" for pl, pad in zip(tr["plain"], tr["pads"])]
+    sends = [f"S{pl.hex()}:{len(pad)}:{m[0]}" for pl, pad, m in zip(tr["plain"], tr["pads"], tr["mac"])]
     tr.update(bs=bs, ms=MACS[case["mac"]], chunks=fed, sizes=sizes, prelen=len(pre))
     return sends + events, tr
 
@@ -191,9 +190,11 @@ def oracle(case, obs):
     payloads = [p.lower() for p in case["payloads"]]
     # sender framing (RFC 4253 section 6) on the plaintext packets handed to the cipher
     bs = CIPHERS[case["cip"]]
-    for s in sends:
+    for k, s in enumerate(sends):
         pkt = bytes.fromhex(s[1:].split(":")[0])
         padlen = int(s.split(":")[1])
+        if int(s.split(":")[2]) != k:
+            return Failure(case, f"outgoing sequence number {s.split(':')[2]} on packet {k}", "send-sequence")
         if len(pkt) % max(bs, 8) or int.from_bytes(pkt[:4], "big") != len(pkt) - 4 or pkt[4] != padlen or not 4 <= padlen <= 255:
             return Failure(case, f"malformed packet framed by sendPacket: {s[:60]}", "send-framing")
     ver = _expected_version(case)
@@ -250,7 +251,7 @@ _VERSIONS = [b"SSH-2.0-Verif_1.0\r\n"] * 6 + [b"SSH-2.0-Verif\n", b"SSH-1.99-Old
 
 
 def _payload(rng, big=False):
-    n = rng.choice([1, 1, 2, 3, 5, 7, 8, 11, 12, 16, 27, 28, 40] + ([200, 1000] if big else []))
+    n = rng.choice([1, 1, 2, 3, 5, 7, 8, 11, 12, 16, 27, 28, 40] + ([100, 200, 1000] if big else []))
     p = bytes([rng.choice([1, 2, 20, 50, 94, 255])]) + rng.randbytes(n - 1)
     r = rng.random()
     if r < 0.08:
@@ -266,7 +267,7 @@ def gen(rng, tier):
     ciphers = [c.decode() for c in transport.SSHTransportBase.supportedCiphers] + ["none"]
     macs = [m.decode() for m in transport.SSHTransportBase.supportedMACs] + ["none"]
     cases = []
-    reps = 5 if quick else 40
+    reps = 5 if quick else 25
     for cip in ciphers:
         for mac in macs:
             for comp in (False, True):
@@ -331,10 +332,10 @@ def to_coq(case):
     if h not in _TR:
         impl(case)
     tr = _TR[h]
-    if sum(len(c) for c in tr["chunks"]) > 6000:
+    if sum(len(c) for c in tr["chunks"]) > 1200:
         return None          # keep the Coq terms small; large streams go through the oracle only
     dec = coq_list([coq_bytes(d) for d in tr["dec"]], "bytes")
-    ver = coq_list([f"({s}%N, {coq_bytes(d)}, {coq_bytes(m)})" for s, d, m in tr["ver"]], "(N * bytes * bytes)%type")
+    ver = coq_list([f"({s}%N, {coq_bytes(d)}, {coq_bytes(m)})" for s, d, m in tr["mac"]], "(N * bytes * bytes)%type")
     dz = coq_list(["None" if d is None else f"(Some {coq_bytes(d)})" for d in tr["dz"]], "(option bytes)")
     items = coq_list([f"({coq_bytes(z)}, {coq_bytes(p)})" for z, p in zip(tr["z"], tr["pads"])], "(bytes * bytes)%type")
     chunks = coq_list([coq_bytes(c) for c in tr["chunks"]], "bytes")
@@ -371,15 +372,17 @@ SPEC = Spec(
     to_coq=to_coq,
     nontrivial=lambda c, o: " P" in " " + o or "X" in o,
     histogram=lambda c, o: f"{c['cip']}/{c['mac']}/{'zlib' if c['comp'] else 'none'}" + ("/tampered" if c.get("corrupt") else ""),
-    rule="every cipher the transport offers (+none) x every MAC it offers (+none) x {none, zlib}, 5 (thorough 40) cases "
+    rule="every cipher the transport offers (+none) x every MAC it offers (+none) x {none, zlib}, 5 (thorough 25) cases "
          "each: 0-3 banner lines (incl. lines with 'SSH-' inside, lines of exactly one cipher block, empty lines), 14 "
          "version-line shapes (LF only, CR CR LF, 1.99, unsupported, no software part), 1-5 random payloads of 1-40 "
          "(thorough 1000) bytes (some containing LF SSH-2.0-...), deliveries whole / byte-by-byte / random cuts / cut "
          "after every banner newline; every third case flips one byte of the encrypted stream; preambles around the 4 KB "
          "limit; non-trivial = something delivered or a disconnect; distinct by (case, observation)",
     trusted=["hand-written model coq/C35/Model.v (tied by this correspondence run only)",
-             "oracle transcripts: the model is evaluated with the answers the real decryptor, MAC verifier and "
-             "decompressor gave during the implementation run, replayed in call order (harness/c35.py, coq/C35/Run.v)",
+             "oracle transcripts: the model is evaluated with the answers the real decryptor and decompressor gave "
+             "during the implementation run, replayed in call order, and with the ideal MAC 'verify(seq, p, m) iff the "
+             "sender's makeMAC produced m for (seq, p)' built from the sender's recorded makeMAC calls (harness/c35.py, "
+             "coq/C35/Run.v)",
              "SSHCiphers subclass / zlib proxies only record; randbytes.secureRandom is patched to seeded bytes while "
              "the sender runs; sender and receiver are SSHTransportBase instances without key exchange "
              "(currentEncryptions / *Compression set directly, as transport._newKeys does)",
